@@ -43,7 +43,7 @@ PLANS = {
     "C13": dict(engine=INO, mc=["MC_Sched"], also_lin=True,
                 quick=[("close", 200, ""), ("newclose", 3, "n=300"), ("lag", 60, ""), ("ovfstall", 1, "mode=close"), ("readfault", 40, ""), ("closereuse", 6, "")],
                 thorough=[("close", 5000, ""), ("newclose", 10, "n=1000"), ("lag", 1500, ""), ("readfault", 600, ""), ("ovfstall", 6, "mode=close"), ("closereuse", 100, "")]),
-    "C14": dict(engine=INO, mc=["MC_Events"],
+    "C14": dict(engine=INO, mc=["MC_Events", "MC_FdReuse"],
                 quick=[("multi", 100, ""), ("multix", 60, ""), ("absorb", 40, ""), ("capsweep", 24, ""), ("ovflate", 2, ""), ("closereuse", 10, "")],
                 thorough=[("multi", 2000, ""), ("multix", 1500, ""), ("absorb", 400, ""), ("capsweep", 400, ""), ("ovflate", 8, ""), ("closereuse", 200, "")]),
 }
